@@ -5,11 +5,11 @@ CFG = {
     "race": True,
     "streams": [
         {"mod": "extras", "component": "stats", "driver": "stats", "reset_re": "^reset",
-         "n": {"quick": 30000, "thorough": 600000}},
+         "n": {"quick": 24000, "thorough": 600000}},
         {"mod": "extras", "component": "statsconc", "driver": "stats",
-         "n": {"quick": 36, "thorough": 240}},
+         "n": {"quick": 24, "thorough": 240}},
         {"mod": "extras", "component": "statslive", "driver": "stats",
-         "n": {"quick": 4, "thorough": 24}},
+         "n": {"quick": 5, "thorough": 30}},
     ],
     "rule": "stats: histories of 8-70 operations on a fresh server (random secret): direct LogTraffic/LogOnlineState calls and "
             "requests through the real http.Handler (recorder; 1 in 6 well-formed ones over a real TCP httptest.Server) - GET /traffic "
@@ -20,7 +20,8 @@ CFG = {
             "a request answered 200 with data or effect. statsconc: one case = one concurrent run (3-10 reporters x 400-2500 reports, "
             "1-4 pollers half of them clearing, 0-4 kickers, or connections going online/offline around a barrier), modes mix / noclear "
             "/ storm / census / mixnet (real TCP server). statslive: one case = a real core/server (TrafficLogger = the real stats server) "
-            "with 2-6 real core/client clients over loopback UDP plus one rejected auth, ended by client Close / server Close / kick + refused "
+            "with 2-6 real core/client clients over loopback UDP plus one rejected auth, one raw HTTP/3 connection sending 2-3 auth requests "
+            "at once while the authenticator blocks (then one more), ended by client Close / server Close / kick + refused "
             "relay chunk / silent client (4 s idle timeout, one of them silent while a slow authenticator is still deciding); GET /online must "
             "equal the connected authenticated clients at every quiescent point.",
     "trusted_base": [
@@ -33,8 +34,10 @@ CFG = {
         "server_pairs_notifications / server_online_census are theorems about Hy.Stats.Server, an abstract life cycle of core/server/server.go's "
         "handleClient + h3sHandler.ServeHTTP; it assumes quic-go's contract that http3.Server.ServeQUICConn returns only after all handlers have "
         "returned, and that only those two call sites call LogOnlineState. It is tied to the code only by the loopback runs of stream "
-        "statslive (client close, server close, kick, idle timeout, slow authenticator with the client gone first) - a handful of schedules, "
-        "wall-clock deadlines (3-9 s) decide 'eventually'; several auth requests on one connection are covered by the theorem only",
+        "statslive (concurrent auth requests on one connection, client close, server close, kick, idle timeout, slow authenticator with "
+        "the client gone first) - a handful of schedules, wall-clock deadlines (3-9 s) decide 'eventually' - and by two facts recomputed "
+        "from core/server's AST: test/Authenticate/commit/LogOnlineState(true) sit in one authMutex region of ServeHTTP (atomicity of the "
+        "model's authReq step), and LogOnlineState has exactly the two call sites the model has",
         "OnlineMap values are Go int (64-bit): more than 2^63 simultaneous connections of one id are not modelled",
     ],
     "assumptions": [
@@ -55,7 +58,7 @@ MANIFEST = {
             "do not overlap); an online entry is never <= 0 and equals #online - #offline for paired notifications; a request without the "
             "secret changes and learns nothing; and, over an abstract connection life cycle of core/server, each connection sends online once "
             "per first accepted auth and offline once after its handler returns, so the listing equals the number of live authenticated "
-            "connections. Tied to the source by go/ast lock-region facts regenerated on every run, a 30k-operation (quick) sequential "
+            "connections. Tied to the source by go/ast lock-region facts regenerated on every run, a 24k-operation (quick) sequential "
             "differential through the real http.Handler, concurrent runs checked against the order-independent consequences "
             "(-race in the thorough tier), and real server + clients over loopback for the online census.",
     "note": "Trusted: Lean kernel (+leanchecker), axioms propext/Quot.sound/Classical.choice at most; the Go harness and hydrv; sync.RWMutex; "
